@@ -309,9 +309,9 @@ func firstLine(s string) string {
 
 type fixture struct {
 	dir, blob, index, store, cfg string
-	data                          []byte
-	idx                           desync.Index
-	ids                           map[string]int
+	data                         []byte
+	idx                          desync.Index
+	ids                          map[string]int
 }
 
 // a blob with repeated sections (duplicate chunks) and a run of zeros, chunked with small parameters
@@ -368,9 +368,9 @@ var (
 )
 
 type sysEvent struct {
-	op         string
-	path, to   string
-	n, off     int64
+	op          string
+	path, to    string
+	n, off      int64
 	trunc, excl bool
 }
 
@@ -577,10 +577,14 @@ func runStrace(r *rand.Rand, dir string) {
 func runXkill(r *rand.Rand, dir string, thorough bool) {
 	fx := mkFixture(r, filepath.Join(dir, "fxk"), r.Intn(2) == 0)
 	groups := []string{"rename,renameat,renameat2", "unlink,unlinkat", "truncate,ftruncate", "pwrite64,write", "openat", "close"}
-	for _, n := range []string{"1", "4", "1a", "4a"} {
+	for _, n := range []string{"1", "4", "1a", "4a", "1L"} {
 		absent := strings.HasSuffix(n, "a")
-		n = strings.TrimSuffix(n, "a")
+		long := strings.HasSuffix(n, "L") // a destination name so long that no temporary file can be created next to it
+		n = strings.TrimSuffix(strings.TrimSuffix(n, "a"), "L")
 		for _, g := range groups {
+			if long && !(strings.HasPrefix(g, "pwrite64") || strings.HasPrefix(g, "truncate") || g == "openat") {
+				continue
+			}
 			maxK := 400
 			for k := 1; k <= maxK; k++ {
 				scen++
@@ -588,6 +592,9 @@ func runXkill(r *rand.Rand, dir string, thorough bool) {
 				os.RemoveAll(ddir)
 				os.MkdirAll(ddir, 0755)
 				dest := filepath.Join(ddir, "out")
+				if long {
+					dest = filepath.Join(ddir, strings.Repeat("o", 250))
+				}
 				prev := []byte("previous content of the destination")
 				if !absent {
 					must(os.WriteFile(dest, prev, 0644))
@@ -609,8 +616,16 @@ func runXkill(r *rand.Rand, dir string, thorough bool) {
 					state = "new"
 				}
 				left, _ := filepath.Glob(filepath.Join(ddir, ".out*"))
-				w.Emit(J{"ev": "xkill", "scen": scen, "n": n, "absent": absent, "sys": g, "k": k, "survived": err == nil, "dest": state, "leftover_tmp": len(left), "out": firstLine(string(out))})
-				if err == nil { // the k-th call never happened: the sweep of this group is complete
+				w.Emit(J{"ev": "xkill", "scen": scen, "n": n, "absent": absent, "longname": long, "sys": g, "k": k, "survived": err == nil, "dest": state, "leftover_tmp": len(left), "out": firstLine(string(out))})
+				// strace exits with 128+9 when the traced command was killed by the injected SIGKILL; any other non-zero status
+				// means the command ended by itself with an error (e.g. it refused the over-long destination name)
+				killedBySig := false
+				if ee, ok := err.(*exec.ExitError); ok {
+					if ws, ok := ee.Sys().(syscall.WaitStatus); ok && (ws.Signaled() || ws.ExitStatus() == 137) {
+						killedBySig = true
+					}
+				}
+				if err == nil || !killedBySig { // the k-th call never happened: the sweep of this group is complete
 					break
 				}
 			}
